@@ -166,7 +166,7 @@ def _code(key: tuple, valmap: dict | None) -> int:
 _GLOBAL_VALMAP: dict = {}
 
 
-def xml_project(xml: bytes | str, valmap: dict | None = None) -> dict:
+def xml_project(xml: bytes | str, valmap: dict | None = None, _only_parse: bool = False):
     """Independent expansion of a serialized table:table element.
     Returns the abstract state plus the raw structural facts C07 talks about."""
     if isinstance(xml, str):
@@ -207,8 +207,15 @@ def xml_project(xml: bytes | str, valmap: dict | None = None) -> dict:
         b">" % (NS["table"].encode(), NS["office"].encode(), NS["text"].encode())
     )
     root = etree.fromstring(wrapper + xml + b"</r>")
+    if _only_parse:
+        return root
     table = root[0]
     return project_element(table, valmap)
+
+
+def parse_wrapped(xml):
+    """Parse a serialized odfdo fragment under a root declaring every ODF namespace."""
+    return xml_project(xml, _only_parse=True)
 
 
 def project_element(table, valmap: dict | None = None) -> dict:
